@@ -630,8 +630,12 @@ impl SemTypeContext {
         SemType::new_basic(SubTypeTag::OptionalProp.code())
     }
     pub fn make_optional(it: Rc<SemType>) -> Result<Rc<SemType>> {
+        // an optional property may be missing, and it may be present and hold `undefined`:
+        // { a: string | undefined } is assignable to { a?: string }
         let t2 = Self::optional_prop();
-        Rc::new(it).union(&Rc::new(t2))
+        Rc::new(it)
+            .union(&Rc::new(t2))?
+            .union(&Rc::new(Self::undefined()))
     }
     pub fn never() -> SemType {
         SemType::new_never()
